@@ -17,7 +17,7 @@
      A (<carrier> <type> <value>)+            | one token per op   SerializedValues::add_value sequence
      X <rep> <c> <t> <v> (<c> <t> <v>)+       | 1 + n tokens       rep copies of the first, then the others
      R <ncols> <type>* <nvals> (<carrier> <value>)* | token / err:<leaf>  SerializedValues::from_serializable
-     T <ncols> <type>* <row carrier Tup[..]> <nrows> | ok:<rows> / err:WrongColumnCount / err:col<i>:<leaf>
+     T <ncols> <type>* <row carrier Tup[..]> <nrows> | ok:<decoded>:<failed to decode> / err:WrongColumnCount / err:col<i>:<leaf>
                                                 TypedRowIterator::new over a RawRowIterator of real rows
      C (c<n> | a<n>)+                         | token / err:TooManyValues   SerializedValues::from_closure: n cells
                                                 through make_cell_writer / append_serialize_row of n values
@@ -238,6 +238,10 @@ let rec p_kval c : kval =
     match name with
     | "null" -> VNull | "unset" -> VUnset | "mempty" -> VEmpty
     | "w" -> (match bitems c p_kval with [x] -> VWrap x | _ -> raise (Parse "w"))
+    | "bigdec" ->
+      (match bitems c btoken with
+       | [sc; raw] -> VLeaf (CDecimal (z_of_hex sc, bytes_of_hexstr raw))
+       | _ -> raise (Parse "bigdec"))
     | "seq" -> VSeq (bitems c p_kval)
     | "tup" -> VTup (bitems c p_kval)
     | "map" -> VMap (bitems c (fun c -> let k = p_kval c in expect c '~'; let v = p_kval c in (k, v)))
@@ -246,7 +250,7 @@ let rec p_kval c : kval =
 let carrier_of_string = whole p_carrier
 let kval_of_string = whole p_kval
 
-let kerr_name = function KE e -> ser_err_name e | KE_IllTyped -> "IllTyped"
+let kerr_name = function KE e -> ser_err_name e | KE_ValueOverflow -> "ValueOverflow" | KE_IllTyped -> "IllTyped"
 let row_err_name = function
   | RE_TooManyValues -> "TooManyValues" | RE_WrongColumnCount -> "WrongColumnCount" | RE_Ser e -> kerr_name e
 let tck_name = function
@@ -267,7 +271,6 @@ let fnv (l : n list) : string =
 
 let rec list_len (l : 'a list) acc = match l with [] -> acc | _ :: r -> list_len r (acc + 1)
 
-let class_suffix k t = if known_class k t then " class=vector-null-element" else ""
 
 (* ---------------------------------------------------------------- state of an add_value sequence *)
 
@@ -298,7 +301,7 @@ let step (s : st) k t v : string * st =
 
 type finding = { why : string; known : bool }
 
-let refusal_names = "VectorLen" :: typeck_names
+let refusal_names = "VectorLen" :: "ValueOverflow" :: typeck_names
 
 (* one serialisation of value v of carrier k at column type t, answered [res] *)
 let op_finding k t v (res : string) : finding option =
@@ -416,9 +419,9 @@ let verdict case impl =
     let agrees = mtoks = itoks in
     (* the first token is the state after [rep] adds: it must count them all *)
     let first = (match String.split_on_char '/' tok1 with
-        | [_; cnt; it; _; _] ->
+        | [r1; cnt; it; _; _] ->
           if cnt <> it then [{ why = "element_count " ^ cnt ^ " but iter().count() " ^ it; known = false }]
-          else if !last = "ok" && rep <= 65535 && cnt <> Printf.sprintf "%x" rep && op_finding k1 t1 v1 "ok" = None then
+          else if r1 = "ok" && rep >= 1 && rep <= 65535 && cnt <> Printf.sprintf "%x" rep && val_fits k1 t1 v1 then
             [{ why = "after " ^ string_of_int rep ^ " accepted values the count is " ^ cnt; known = false }]
           else []
         | _ -> []) in
@@ -481,16 +484,20 @@ let verdict case impl =
        (* the specification, not the model: the documented compatibility of every column *)
        let documented = List.length ks = List.length cols && List.for_all2 (fun k t -> doc_compat De k t) ks cols in
        let is_ok = String.length ires >= 3 && String.sub ires 0 3 = "ok:" in
+       (* ok:<items decoded>:<items that failed to decode>: together the rows the iterator was given *)
+       let ires_n = (match String.split_on_char ':' ires with
+           | ["ok"; a; b] -> (try "ok:" ^ Printf.sprintf "%x" (int_of_string ("0x" ^ a) + int_of_string ("0x" ^ b)) with _ -> ires)
+           | _ -> ires) in
        let is_tck = (match strip_err ires with
            | Some "WrongColumnCount" -> true
            | Some e -> (match String.split_on_char ':' e with [_; leaf] -> List.mem leaf tck_names | _ -> false)
            | None -> false) in
        let fs =
          if is_ok && not documented then
-           [{ why = "rows were handed to deserialize over columns the row type does not fit"; known = false }]
+           [{ why = "a typed row iterator was built over columns the row type does not fit"; known = false }]
          else if is_tck && documented then [{ why = "a documented row type was refused with " ^ ires; known = false }]
          else [] in
-       conclude ~agrees:(mres = ires) ~model:mres fs
+       conclude ~agrees:(mres = ires_n) ~model:mres fs
      | _ -> "error bad T case")
   | "C" :: parts, [ires] ->
     let sizes = List.map (fun p -> n_of_hex (String.sub p 1 (String.length p - 1))) parts in
